@@ -178,6 +178,9 @@ def check(ctx):
                 for x in sw:
                     one = [tg for (v, tg) in cb.term(x)[2] if v == 1]
                     if one and cb.dominates(one[0], b) and one[0] != cb.term(x)[3]: ok = True
+                # `if concurrency_limit == 1 {..} else {..}`: the same test as a comparison
+                for (tb_, eq_t, ne_t, subj_) in util.eq_const_edge(cb, cd, lambda e_: e_[:2] == ("field", "concurrency_limit"), 1):
+                    if eq_t != ne_t and (cb.dominates(eq_t, b) or eq_t == b): ok = True
                 ctx.ob("R11.5", f"{co}|for_each-only-when-limit-1", ok, cb.loc(b), "sequential for_each is used only on the `concurrency_limit == 1` arm")
         if not loops:
             ctx.ob("R11.5", f"{co}|drives-stream", False, f"{cb.f['file']}:{cb.f['line']}", "executor coroutine has no for_each / for_each_concurrent over its stream"); continue
@@ -251,9 +254,9 @@ def check(ctx):
                "the zero / non-zero dispatch compares the configured Duration exactly" if not bad_t else
                f"the dispatch tests `{show(pd.expr(pb.term(bad_t[0])[1]))[:80]}`: a truncated view of the timeout -- sub-unit timeouts select the non-enforcing variant")
         entry = min(tests, key=lambda b: len(pb.dom[b]))
-        nonzero_first = pb.term(entry)[3]          # `otherwise` edge of the first test: some field is non-zero
+        nonzero_first = _zero_edges(pb, entry, pd)[1]          # the edge of the first test on which (some part of) the timeout is non-zero
         for (co, sb) in lst:
-            enforcing = sb == nonzero_first or pb.dominates(nonzero_first, sb) or not _only_via_zero(pb, tests, sb)
+            enforcing = sb == nonzero_first or pb.dominates(nonzero_first, sb) or not _only_via_zero(pb, tests, sb, pd)
             touts = []
             for fk in procs[co]:
                 for m in u.members(fk):
@@ -354,16 +357,29 @@ def _mentions_timeout(pb, pd, b):
     except Exception: return False
 
 
-def _only_via_zero(pb, tests, sb):
+def _zero_edges(pb, tb, pd=None):
+    """(edge taken when the tested part of the timeout IS zero, the other edge) of a test on futures_timeout -- polarity-aware: `== ZERO` / `is_zero()` / a field pattern
+    `0` answer zero on their true / matching edge, `!= ZERO` on its false edge, a leading `!` flips"""
+    t = pb.term(tb)
+    z = [tg for (v, tg) in t[2] if v == 0]
+    if t[5] != "bool":
+        return (z[0] if z else None, t[3])
+    true_t, false_t = t[3], (z[0] if z else None)
+    zero_on_true = True
+    if pd is not None:
+        e = pd.expr(t[1]); neg = False
+        while isinstance(e, tuple) and e[0] == "un" and e[1] == "Not": e = e[2]; neg = not neg
+        e = strip_casts(e)
+        if e[0] == "call" and e[1].split("::")[-1] == "ne": zero_on_true = False
+        elif e[0] == "bin" and str(e[1]).rstrip("!~") == "Ne": zero_on_true = False
+        if neg: zero_on_true = not zero_on_true
+    return (true_t, false_t) if zero_on_true else (false_t, true_t)
+
+
+def _only_via_zero(pb, tests, sb, pd=None):
     """sb is reachable only through the `== 0` edges of every test block (the all-zero arm)"""
     for tb in tests:
-        t = pb.term(tb)
-        if t[5] == "bool":
-            # Eq(const 0, field): true edge = zero
-            zero_t = t[3]
-        else:
-            z = [tg for (v, tg) in t[2] if v == 0]
-            zero_t = z[0] if z else None
+        zero_t = _zero_edges(pb, tb, pd)[0]
         if zero_t is None or not (pb.dominates(zero_t, sb) or zero_t == sb): return False
     return True
 
